@@ -154,6 +154,17 @@ def check_first_vel(case):
         if not abs(cpos - c) <= 1e-12 * abs(c) + 1e-15 * d:
             raise Fail("CO2-aware first velocity correction differs when the same request is written with %s" % form,
                        expected=c, observed=cpos, bucket="first_vel_corrn call form")
+    # the instrument's parameters are one thing and the carrier the correction is asked for another: the parameters object that
+    # first_vel_params returned for the reference wavelength, handed on with ANOTHER wavelength, gives the correction for the
+    # group index at the wavelength asked for
+    lam2 = 0.4 + (lam * 7.31 + 0.123) % 1.2
+    c_other = sv.first_vel_corrn(d, params, T, P, rh, CO2_ppm=co2, wavelength=lam2)
+    ng2 = 1.0 + sv.group_refractivity(lam2, T, P, e, co2) / 1.0e8
+    want2 = (nref / ng2 - 1.0) * d
+    if not abs(c_other - want2) <= 1e-12 * abs(want2) + 1e-15 * d:
+        raise Fail("CO2-aware correction with the parameters returned by first_vel_params for one wavelength and asked for another "
+                   "wavelength is not (reference index / group index at the wavelength asked for - 1) x distance",
+                   expected=want2, observed={"corrn": c_other, "params_wavelength": lam, "wavelength": lam2}, bucket="params handed on")
     # proportional to the measured distance
     k = case["kd"]
     c2 = sv.first_vel_corrn(d * k, params, T, P, rh, CO2_ppm=co2, wavelength=lam)
